@@ -1,29 +1,45 @@
 """C04 — No received frame can stop or derail the receive path.
 
-Theorems: lean/Props/C04.lean (loop never dies for every frame processor given the GENERATED except-clauses;
-rejected frames have no effect; MAC filter).  Model: lean/FlexModel/Geo/RecvPath.lean.
-Tie: (i) Generated/Except.lean re-read from the source's `except` clauses on every run;
-(ii) byte-level correspondence of `classify` with the real `Router.process_basic_header` on fuzzed frames
-(outcome class per frame: raised:<Exc> / dropped / secured / handled:<handler>);
-(iii) the real `RawLinkLayer.receive` and `PythonCV2XLinkLayer.callback_handler_loop` run on scripted
-sockets/queues with bad frames injected at every position of valid traffic — oracle: loop alive, deliveries of
-the valid frames equal those of the control run without the bad frames, own/foreign-unicast frames ignored.
+Theorems: lean/Props/C04.lean.  Models: lean/FlexModel/Geo/RecvPath.lean (byte-level prologue, loops with handler
+faults), RecvStation.lean (prologue + C03 gate + C06 router + facility chain), RecvLemmas.lean.
+Tie:
+ (i)   Generated/Except.lean re-read from the source on every run (gen_except.py): shape of the guarding `try`
+       statements (inside the `while`? handler bodies allow-listed?), table of every exception class a `raise` on the
+       receive path names + builtins + classes observed here, with their MRO;
+ (ii)  byte-level correspondence of `classify` with the real `Router.process_basic_header` for four configurations
+       (security off / on, without / WITH a real VerifyService) on grammar-based, mutated (unsecured and SECURED
+       captures) and random frames; every exception observed must derive from Exception and be in the table;
+ (iii) effect oracle per frame (transcribes the property, independent of the model): a frame that is DISCARDED
+       (raises or is dropped, nothing delivered to the upper layer, nothing transmitted) must leave location table,
+       duplicate lists, certificate library and P2PCD lists as they were; pair runs `[bad, original]` vs `[original]`
+       for every mutant that keeps (source, sequence number);
+ (iv)  the real `RawLinkLayer.receive` and `PythonCV2XLinkLayer.callback_handler_loop` on scripted sockets / queues:
+       bad frames at random positions of valid traffic, unsecured (5 facility wirings) and with SECURITY ENABLED
+       (real PKI, VerifyService, secured mutants): loop alive, per-frame deliveries of the valid frames, location-table
+       entries of the valid sources and (secured) trust-store snapshots equal to the control run;
+ (v)   fault injection: stdout / stderr that raise (BrokenPipeError, OSError, ValueError) while a bad frame is reported;
+       the loops on their own with a callback that raises (Router.process_basic_header without the router's catch-all);
+ (vi)  MAC filter incl. own MAC -> own MAC.
 """
 from __future__ import annotations
 
+import copy
+import io
+import logging
 import queue
-import traceback
+import sys
+import types
 
 from common import Infra, corpus
 import realstack as rs
 import station as st_mod
+import sec_common as sc
+import gen_except
 
 from flexstack.linklayer.raw_link_layer import RawLinkLayer as _RawLL
 
 # the class is wrapped by a plain-function decorator (raise_exception_if_windows): unwrap it
 RawLinkLayer = _RawLL if isinstance(_RawLL, type) else _RawLL.__closure__[0].cell_contents
-import sys
-import types
 
 if "flexstack.linklayer.cv2xlinklayer" not in sys.modules:
     # the native C-V2X binding (.so) is not shipped: only the Python callback loop is in scope
@@ -35,33 +51,87 @@ from flexstack.linklayer import cv2x_link_layer as cv2x_mod  # noqa: E402
 MODULES = ["Props.C04"]
 DRIVERS = ["Recv"]
 TRUSTED = [
-    "modelled rather than verified: exceptions raised inside asn1tools/ecdsa/facility callbacks are one kind "
-    "`opaque` assumed to derive from Exception (observed by fuzzing, not proved); BaseException-only signals "
-    "(KeyboardInterrupt, SystemExit) are out of scope",
-    "gen_except.py: ast pass that reads the except clauses around receive_callback / process_basic_header",
-    "the stateful handler part (DAD, location table, delivery, forwarding) is an arbitrary function in C04's "
-    "theorems; its own behaviour is the subject of C06/C08/C01",
+    "gen_except.py: ast pass reading the try statements around receive_callback / process_basic_header and the raise "
+    "statements of the modules in the static import closure of the receive path (+ asn1tools, ecdsa, ... whole packages)",
+    "modelled rather than verified: raise statements whose class is computed at run time (`raise self.error`, 54 sites, "
+    "all in code generators / parsers of asn1tools and pyparsing) and exceptions raised by C extensions are covered by "
+    "observation only (every class observed by the fuzzing runs must be in the generated table and derive from Exception); "
+    "application callbacks registered by the user are assumed to raise only Exception subclasses",
+    "the logging module does not raise when its stream fails (CPython: Handler.handleError swallows OSError; exercised "
+    "here with stdout+stderr raising BrokenPipeError/OSError, and stdout raising ValueError)",
+    "the composite station model (RecvStation.lean) glues the C03 gate and the C06 router model, which have their own "
+    "correspondence checks; its decoders are parameters; the conclusions of its theorems are checked on the real stack by "
+    "the effect oracle (iii)/(iv), the glue itself is not run against the code",
 ]
 ASSUMPTIONS = [
     "a frame counts as 'handled' once its handler reaches duplicate_address_detection (all headers decoded)",
-    "mutants are derived from emissions that are not part of the valid stream (fresh sequence numbers), so a "
-    "mutant never legitimately pre-empts a later valid frame in duplicate packet detection",
+    "a frame counts as DISCARDED when processing it raised or returned without any GN-DATA.indication and without any "
+    "transmission; a frame that produced an indication is a well-formed GN packet whatever its payload (C04-KF1)",
+    "bad frames injected into the loop streams that are well-formed GN packets claiming the address of a source of the "
+    "valid stream are excluded from the streams (they are the subject of the pair check and of C04-KF1)",
 ]
 
 OWN_MAC = bytes([0x02, 0, 0, 0, 0, 0x63])
 PEER_MAC = bytes([0x02, 0, 0, 0, 0, 0x01])
 BCAST = b"\xff" * 6
 ETHERTYPE = b"\x89\x47"
-MODEL_EXC = {"DecodeError", "DecapError", "ValueError", "NotImplementedError", "ZeroDivisionError"}
+T0 = 1_700_000_000_000
 
 
-# ------------------------------------------------------------------------------------------------
-# frame generation
+# ------------------------------------------------------------------------------------------------ snapshots
+
+
+def loct_snapshot(router):
+    out = []
+    for addr, e in router.location_table.loc_t.items():
+        pv = e.position_vector
+        out.append((addr.encode().hex(), pv.tst.msec, pv.latitude, pv.longitude, bool(e.is_neighbour),
+                    bool(e.ls_pending), tuple(e.dpl_deque)))
+    return sorted(out)
+
+
+def sec_snapshot(r):
+    """certificate library + P2PCD bookkeeping of a sec_common.RealStation"""
+    lib, ss = r.lib, r.ss
+    return (tuple(sorted(k.hex() for k in lib.known_root_certificates)),
+            tuple(sorted(k.hex() for k in lib.known_authorization_authorities)),
+            tuple(sorted(k.hex() for k in lib.known_authorization_tickets)),
+            tuple(sorted(k.hex() for k in lib.own_certificates)),
+            tuple(bytes(x).hex() for x in ss.unknown_ats), tuple(bytes(x).hex() for x in ss.requested_ats),
+            bool(ss.cam_handler.requested_own_certificate))
+
+
+# ------------------------------------------------------------------------------------------------ exception classes
+
+
+class ExcLog:
+    """every exception class seen at process_basic_header level"""
+
+    def __init__(self, ctx):
+        self.ctx = ctx
+        self.seen = {}
+        self.names, _ = gen_except.table_names()
+
+    def see(self, exc, frame_hex, kind="classify", extra=None):
+        cls = type(exc)
+        q = f"{cls.__module__}.{cls.__qualname__}"
+        if q in self.seen:
+            return
+        self.seen[q] = f"{cls.__module__}:{cls.__qualname__}"
+        self.ctx.cover("exception_class_" + cls.__name__)
+        if not isinstance(exc, Exception):
+            self.ctx.violation(f"{q} raised on the receive path does not derive from Exception (the loops do not catch it)",
+                               dict({"kind": kind, "frame": frame_hex}, **(extra or {})))
+        elif q not in self.names:
+            self.ctx.mismatch("recv.exception_table", {"frame": frame_hex}, q, "not in Generated.Except.raiseTable")
+
+
+# ------------------------------------------------------------------------------------------------ frame generation
 
 
 def base_frames(clock, n=1, idxs=(1, 3)):
     """valid frames (CAM/VAM over SHB, DENM over GBC) emitted by real stations (mutant sources: 1 and 3;
-    the valid streams come from stations 5 and 7 so that no mutant shares (source, SN) with a valid frame)"""
+    the valid streams come from stations 5 and 7)"""
     out = []
     with rs.quiet():
         for idx in idxs:
@@ -79,9 +149,22 @@ def skeleton(ht, hst, body_len, nh=1, cnh=2, rhl=1, mhl=1, version=1, fill=0):
     return basic + common + bytes([fill]) * body_len
 
 
+def zero_area_frames(g):
+    """zero-sized areas on a captured GBC frame `g` (everything else, incl. source and sequence number, unchanged)"""
+    fr = []
+    for a, b in ((0, 0), (0, 5), (5, 0), (1, 1)):
+        for hst in (0, 1, 2):
+            for ht in (3, 4):
+                q = bytearray(g)
+                q[5] = (ht << 4) | hst
+                q[12 + 36:12 + 38] = a.to_bytes(2, "big")
+                q[12 + 38:12 + 40] = b.to_bytes(2, "big")
+                fr.append(bytes(q))
+    return fr
+
+
 def grammar_frames(ctx, base):
     fr = []
-    # every length of every header type around the extended-header sizes
     for ht, hsts in ((0, [0]), (1, [0, 1]), (2, [0, 3]), (3, [0, 1, 2, 3]), (4, [0, 1, 2, 7]), (5, [0, 1, 2]),
                      (6, [0, 1, 2]), (7, [0]), (15, [0])):
         for hst in hsts:
@@ -97,35 +180,26 @@ def grammar_frames(ctx, base):
             q = bytearray(src)
             q[pos] = v
             fr.append(bytes(q))
-    # hop limits
     for rhl in (0, 1, 2, 10, 255):
         for mhl in (0, 1, 9, 10, 255):
             q = bytearray(src)
             q[3], q[10] = rhl, mhl
             fr.append(bytes(q))
-    # station-type field of the source address (offset 12 for SHB/beacon bodies, 16 for ext headers with SN)
     for kind, f in base[:3]:
         off = 12 if kind in ("cam", "vam") else 16
         for v in range(0, 256, 3):
             q = bytearray(f)
             q[off] = v
             fr.append(bytes(q))
-    # zero-sized areas on the GBC frame
     g = next(f for k, f in base if k == "denm")
-    for a, b in ((0, 0), (0, 5), (5, 0), (1, 1)):
-        for hst in (0, 1, 2):
-            for ht in (3, 4):
-                q = bytearray(g)
-                q[5] = (ht << 4) | hst
-                q[12 + 36:12 + 38] = a.to_bytes(2, "big")
-                q[12 + 38:12 + 40] = b.to_bytes(2, "big")
-                fr.append(bytes(q))
+    fr += zero_area_frames(g)
     fr += [b"", b"\x11", b"\x11\x00", b"\x11\x00\x05", b"\x11\x00\x05\x01"]
     return fr
 
 
-def mutant_frames(ctx, base):
+def mutant_frames(ctx, base, n_rand=None):
     fr = []
+    n_rand = ctx.scale(30, 300) if n_rand is None else n_rand
     for kind, f in base[:3] if not ctx.thorough else base:
         for i in range(len(f) + 1):
             fr.append(f[:i])
@@ -135,7 +209,7 @@ def mutant_frames(ctx, base):
                 q = bytearray(f)
                 q[i] ^= 1 << bit
                 fr.append(bytes(q))
-        for _ in range(ctx.scale(30, 300)):
+        for _ in range(n_rand):
             q = bytearray(f)
             for _ in range(ctx.rng.randrange(1, 4)):
                 q[ctx.rng.randrange(len(q))] = ctx.rng.randrange(256)
@@ -152,7 +226,7 @@ def random_frames(ctx):
             else ctx.rng.randrange(0, 200)
         b = bytearray(ctx.rng.randrange(256) for _ in range(ln))
         if ln >= 12 and ctx.rng.random() < 0.7:   # mostly-valid prefix so deeper stages are reached
-            b[0] = 0x11 if ctx.rng.random() < 0.8 else ctx.rng.randrange(256)
+            b[0] = 0x11 if ctx.rng.random() < 0.8 else ctx.rng.choice([0x12, ctx.rng.randrange(256)])
             b[4] = ctx.rng.choice([0x10, 0x20, 0x00, 0x30, 0x40])
             b[5] = (ctx.rng.randrange(8) << 4) | ctx.rng.randrange(4)
             b[3] = ctx.rng.choice([0, 1, 2, 10])
@@ -161,17 +235,265 @@ def random_frames(ctx):
     return fr
 
 
-# ------------------------------------------------------------------------------------------------
-# (ii) classification correspondence
+def dedup(frames):
+    seen, out = set(), []
+    for f in frames:
+        if f not in seen:
+            seen.add(f)
+            out.append(f)
+    return out
+
+
+def all_bad_frames(ctx, clock):
+    base = base_frames(clock, n=1)
+    return dedup(grammar_frames(ctx, base) + mutant_frames(ctx, base) + random_frames(ctx))
+
+
+# ------------------------------------------------------------------------------------------------ secured world
+
+
+class SecWorld:
+    """real PKI (root -> AA -> two tickets), two secured sender stations, secured captures of CAM / VAM / DENM frames"""
+
+    def __init__(self, clock):
+        p = self.pki = sc.PKI()
+        now = sc.its_now_s(T0)
+        live = dict(start=now - 1000, duration=("hours", 100))
+        self.root = p.root("root", **live)
+        self.aa = p.issue(self.root, "aa", issue=[sc.perm_all(1)], **live)
+        self.at1 = p.issue(self.aa, app=[36, 37, 638, 99], **live)
+        self.at2 = p.issue(self.aa, app=[36, 37, 638, 99], **live)
+        self.eroot = p.root("evil-root", **live)
+        self.eaa = p.issue(self.eroot, "evil-aa", issue=[sc.perm_all(1)], **live)
+        self.eat = p.issue(self.eaa, app=[36, 37, 638, 99], **live)
+        # BTP + facility payloads taken from real unsecured captures of stations 5 / 7
+        plain = base_frames(clock, n=1, idxs=(5, 7))
+        self.payloads = {}
+        for kind, f in plain:
+            self.payloads.setdefault(kind, []).append(f[40:] if kind in ("cam", "vam") else f[56:])
+        self.clock = clock
+
+    def senders(self):
+        s1 = sc.RouterStation(self.pki.backend, 5, [self.root], [self.aa], [], own=[self.at1])
+        s2 = sc.RouterStation(self.pki.backend, 7, [self.root], [self.aa], [], own=[self.at2], lat=415000300, lon=21000300)
+        return s1, s2
+
+    def valid_stream(self):
+        """secured CAM (with certificate), VAM, DENM from both senders; fresh senders each time = same SNs / signer rule"""
+        out = []
+        with rs.quiet():
+            for i, s in enumerate(self.senders()):
+                for kind in ("cam", "vam", "denm"):
+                    fr = s.send(kind, self.payloads[kind][i % len(self.payloads[kind])], self.clock.ms)
+                    out += [(kind, f) for f in fr]
+        return out
+
+    def receiver(self, facilities=("ca", "den", "vru"), enabled=True):
+        return FullSecStation(self, 0x63, facilities, enabled)
+
+    def trust(self):
+        """public material from which a replay rebuilds the receiver (frames in a replay file were signed under this PKI)"""
+        return {"root": self.root.encode().hex(), "aa": self.aa.encode().hex()}
+
+
+class TrustWorld:
+    """receive-only world rebuilt from recorded root / AA certificates (replay of secured cases)"""
+
+    def __init__(self, trust):
+        from flexstack.security.certificate import Certificate
+        from flexstack.security.ecdsa_backend import PythonECDSABackend
+
+        def cert(hexs, issuer=None):
+            return Certificate.from_dict(sc.CODER.decode_etsi_ts_103097_certificate(bytes.fromhex(hexs)), issuer)
+        self.pki = types.SimpleNamespace(backend=PythonECDSABackend())
+        self.root = cert(trust["root"])
+        self.aa = cert(trust["aa"], self.root)
+
+    def receiver(self, facilities=("ca", "den", "vru"), enabled=True):
+        return FullSecStation(self, 0x63, facilities, enabled)
+
+
+def replay_world(case, clock):
+    return TrustWorld(case["trust"]) if case.get("trust") else SecWorld(clock)
+
+
+class FullSecStation:
+    """security-enabled station: real Router + VerifyService + SignService + BTP router + facilities"""
+
+    def __init__(self, w, idx, facilities=("ca", "den", "vru"), enabled=True):
+        from flexstack.btp.router import Router as BTPRouter
+        with rs.quiet():
+            self.rs = sc.RouterStation(w.pki.backend, idx, [w.root], [w.aa], [], enabled=enabled,
+                                       lat=415000100, lon=21000100)
+            self.rs.set_position(T0)
+            self.gn = self.rs.router
+            self.ll = self.rs.ll
+            self.btp = BTPRouter(self.gn)
+            self.inds = []
+
+            def on_ind(ind):
+                self.inds.append(ind)
+                return self.btp.btp_data_indication(ind)
+            self.gn.register_indication_callback(on_ind)
+            self.port_hits = []
+            sid = 1000 + idx
+            if "ca" in facilities:
+                from flexstack.facilities.ca_basic_service.ca_basic_service import CooperativeAwarenessBasicService
+                from flexstack.facilities.ca_basic_service.cam_transmission_management import VehicleData
+                vd = VehicleData(station_id=sid, station_type=5, drive_direction="forward",
+                                 vehicle_length={"vehicleLengthValue": 1023, "vehicleLengthConfidenceIndication": "unavailable"},
+                                 vehicle_width=62)
+                self.vehicle_data = vd
+                self.ca = CooperativeAwarenessBasicService(btp_router=self.btp, vehicle_data=vd, ldm=None)
+            if "vru" in facilities:
+                from flexstack.facilities.vru_awareness_service.vru_awareness_service import VRUAwarenessService
+                from flexstack.facilities.vru_awareness_service.vam_transmission_management import DeviceDataProvider
+                self.vru = VRUAwarenessService(btp_router=self.btp,
+                                               device_data_provider=DeviceDataProvider(station_id=sid, station_type=1), ldm=None)
+            if "den" in facilities:
+                from flexstack.facilities.decentralized_environmental_notification_service.den_service import (
+                    DecentralizedEnvironmentalNotificationService)
+                from flexstack.facilities.ca_basic_service.cam_transmission_management import VehicleData
+                vd = getattr(self, "vehicle_data", None) or VehicleData(station_id=sid, station_type=5)
+                self.den = DecentralizedEnvironmentalNotificationService(btp_router=self.btp, vehicle_data=vd, ldm=None)
+            for port, cb in list(self.btp.pre_indication_callbacks.items()):
+                self.btp.pre_indication_callbacks[port] = self._wrap(port, cb)
+            self.btp.freeze_callbacks()
+
+    def _wrap(self, port, cb):
+        def w(ind):
+            self.port_hits.append((port, ind))
+            return cb(ind)
+        return w
+
+    def loct_snapshot(self):
+        return loct_snapshot(self.gn)
+
+    def state(self):
+        return (loct_snapshot(self.gn), sec_snapshot(self.rs))
+
+
+def reencode(sd, version=3, content="signedData"):
+    return sc.CODER.encode_etsi_ts_103097_data_signed({"protocolVersion": version, "content": (content, sd)})
+
+
+def secured_mutants(ctx, w, valid):
+    """bad secured frames: byte-level mutations of the captures (the envelope stops parsing, names other algorithms,
+    signature / payload / signer no longer match) and field-level forgeries.  Returns [(tag, frame)]."""
+    rng = ctx.rng
+    out = []
+    for kind, f in valid[:3] if not ctx.thorough else valid:
+        hdr, body = f[:4], f[4:]
+        for i in sorted(set(list(range(0, 12)) + rng.sample(range(len(f)), min(len(f), ctx.scale(40, 400))))):
+            q = bytearray(f)
+            q[i] ^= 1 << rng.randrange(8)
+            out.append(("bitflip", bytes(q)))
+        for i in sorted(rng.sample(range(len(f)), ctx.scale(12, 80))) + [4, 5, 6, len(f) - 1]:
+            out.append(("truncate", f[:i]))
+        for _ in range(ctx.scale(10, 100)):
+            q = bytearray(f)
+            for _ in range(rng.randrange(1, 4)):
+                q[rng.randrange(4, len(q))] = rng.randrange(256)
+            out.append(("bytesub", bytes(q)))
+        out.append(("extend", f + bytes(rng.randrange(256) for _ in range(7))))
+        out.append(("garbage-envelope", hdr + bytes(rng.randrange(256) for _ in range(60))))
+        out.append(("empty-envelope", hdr))
+        dec = sc.decode_signed(body)
+        if dec is None:
+            continue
+        base_sd = dec[0]
+
+        def field(tag, fn, **kw):
+            sd = copy.deepcopy(base_sd)
+            try:
+                fn(sd)
+                out.append(("field:" + tag, hdr + reencode(sd, **kw)))
+            except Exception:  # noqa: BLE001 - mutation not encodable
+                pass
+
+        def flip_payload(sd):
+            pl = bytearray(sd["tbsData"]["payload"]["data"]["content"][1])
+            pl[rng.randrange(len(pl))] ^= 1 << rng.randrange(8)
+            sd["tbsData"]["payload"]["data"]["content"] = ("unsecuredData", bytes(pl))
+
+        def garbage_payload_signed(sd):
+            # an AUTHENTIC message (signed by the genuine ticket) whose facility payload does not decode
+            pl = bytes(sd["tbsData"]["payload"]["data"]["content"][1])
+            cut = rng.choice([len(pl) - 3, len(pl) - 8, 60, 62])
+            sd["tbsData"]["payload"]["data"]["content"] = ("unsecuredData", pl[:max(cut, 57)])
+            key = w.at1.key_id if (sd["signer"][0] == "certificate" and sc.hid8(sd["signer"][1][0]) == sc.hid8(w.at1.certificate)) \
+                or (sd["signer"][0] == "digest" and bytes(sd["signer"][1]) == w.at1.as_hashedid8()) else w.at2.key_id
+            sd["signature"] = w.pki.backend.sign(sc.CODER.encode_to_be_signed_data(sd["tbsData"]), key)
+
+        def unknown_digest(sd):
+            sd["signer"] = ("digest", bytes(rng.randrange(256) for _ in range(8)))
+
+        def flip_sig(sd):
+            sig = sd["signature"][1]
+            b = bytearray(sig["sSig"])
+            b[rng.randrange(32)] ^= 1 << rng.randrange(8)
+            sig["sSig"] = bytes(b)
+
+        def other_hash(sd):
+            sd["hashId"] = "sha384"
+
+        def sig_format(sd):
+            sig = sd["signature"][1]
+            sig["rSig"] = ("compressed-y-0", sig["rSig"][1])
+
+        def evil_chain(sd):
+            sd["signature"] = w.pki.backend.sign(sc.CODER.encode_to_be_signed_data(sd["tbsData"]), w.eat.key_id)
+            sd["signer"] = ("certificate", [w.eat.certificate])
+
+        def signer_self(sd):
+            sd["signer"] = ("self", None)
+
+        def two_certs(sd):
+            if sd["signer"][0] == "certificate":
+                sd["signer"] = ("certificate", [sd["signer"][1][0], w.aa.certificate])
+            else:
+                sd["signer"] = ("certificate", [w.at1.certificate, w.aa.certificate])
+
+        def psid(sd):
+            sd["tbsData"]["headerInfo"]["psid"] = 1000
+
+        def no_gentime(sd):
+            sd["tbsData"]["headerInfo"].pop("generationTime", None)
+
+        field("payload-flip", flip_payload)
+        field("payload-undecodable-authentic", garbage_payload_signed)
+        field("unknown-digest", unknown_digest)
+        field("signature-flip", flip_sig)
+        field("hash-sha384", other_hash)
+        field("sig-format", sig_format)
+        field("evil-chain", evil_chain)
+        field("signer-self", signer_self)
+        field("two-certs", two_certs)
+        field("psid", psid)
+        field("no-gentime", no_gentime)
+        field("protocol-version-2", lambda sd: None, version=2)
+    return out
+
+
+def envelope_parses(frame):
+    """independent judgement (asn1 coder, not the verify service): does the secured envelope of `frame` decode?"""
+    try:
+        return sc.decode_signed(frame[4:]) is not None
+    except Exception:  # noqa: BLE001
+        return False
+
+
+# ------------------------------------------------------------------------------------------------ (ii)+(iii) per frame
 
 
 class Spy:
-    """records which handler's stateful part was reached on a real Router"""
+    """records which handler's stateful part was reached / whether the verify service was called, on a real Router"""
 
     def __init__(self, router):
         self.r = router
         self.reached = None
         self.current = None
+        self.verified = False
         orig_dad = router.duplicate_address_detection
 
         def dad(addr):
@@ -184,6 +506,14 @@ class Spy:
                           ("gn_data_indicate_gac", "gac"), ("gn_data_indicate_guc", "guc"),
                           ("gn_data_indicate_ls_request", "ls_request"), ("gn_data_indicate_ls_reply", "ls_reply")):
             self._wrap(name, tag)
+        vs = getattr(router, "verify_service", None)
+        if vs is not None:
+            orig_verify = vs.verify
+
+            def verify(req):
+                self.verified = True
+                return orig_verify(req)
+            vs.verify = verify
 
     def _wrap(self, name, tag):
         orig = getattr(self.r, name)
@@ -196,57 +526,203 @@ class Spy:
     def reset(self):
         self.reached = None
         self.current = None
+        self.verified = False
 
 
-def real_classify(stn, spy, frame):
-    spy.reset()
-    before = stn.loct_snapshot()
-    hits = len(stn.port_hits)
-    exc = None
-    try:
-        with rs.quiet():
-            stn.gn.process_basic_header(frame)
-    except Exception as e:  # noqa: BLE001
-        exc = e
-    if spy.reached is not None:
-        return "handled:" + spy.reached, exc
-    if exc is not None:
-        n = type(exc).__name__
-        changed = stn.loct_snapshot() != before or len(stn.port_hits) != hits
-        return ("raised:" + n) + ("+EFFECT" if changed else ""), exc
-    if stn.loct_snapshot() != before or len(stn.port_hits) != hits:
-        return "dropped+EFFECT", None
-    return "dropped", None
+class Probe:
+    """one real station observed per frame: outcome class, exception, discarded?, state before/after"""
+
+    def __init__(self, clock, sec=0, ver=0, world=None, with_ldm=False):
+        from flexstack.geonet.mib import GnSecurity
+        self.sec, self.ver = sec, ver
+        if ver:
+            self.stn = world.receiver(enabled=bool(sec))
+            self.state = self.stn.state
+        else:
+            kw = {"itsGnSecurity": GnSecurity.ENABLED} if sec else {}
+            with rs.quiet():
+                self.stn = st_mod.Station(0x63, clock, with_ldm=with_ldm, **kw)
+            self.inds = []
+            orig = self.stn.gn.indication_callback
+
+            def on_ind(ind):
+                self.inds.append(ind)
+                return orig(ind)
+            self.stn.gn.indication_callback = on_ind
+            self.state = lambda: (loct_snapshot(self.stn.gn), ())
+        self.spy = Spy(self.stn.gn)
+
+    def n_inds(self):
+        return len(self.stn.inds) if self.ver else len(self.inds)
+
+    def feed(self, frame):
+        """-> (outcome string as the model prints it, exception, discarded, state changed, delivered [(port, hex)])"""
+        self.spy.reset()
+        before = self.state()
+        hits, inds = len(self.stn.port_hits), self.n_inds()
+        self.stn.ll.take()
+        exc = None
+        try:
+            with rs.quiet():
+                self.stn.gn.process_basic_header(frame)
+        except Exception as e:  # noqa: BLE001
+            exc = e
+        sent = self.stn.ll.take()
+        delivered = [(p, bytes(i.data).hex()) for p, i in self.stn.port_hits[hits:]]
+        indicated = self.n_inds() > inds
+        changed = self.state() != before
+        # DISCARDED: the frame raised, or was dropped before any handler ran - and nothing was delivered or sent.
+        # (A frame that a handler processed without raising is a well-formed packet even if nothing is delivered:
+        # beacons, packets forwarded nowhere, areas the station is outside of.)
+        discarded = (not indicated and not sent) and (exc is not None or (self.spy.reached is None and not self.spy.verified)
+                                                      or self.spy.verified)
+        if self.spy.reached is not None and not self.spy.verified:
+            out = "handled:" + self.spy.reached
+        elif self.spy.verified:
+            out = "secured"
+        elif exc is not None:
+            out = "raised:" + type(exc).__name__
+        else:
+            out = "dropped"
+        return out, exc, discarded, changed, delivered
 
 
-def check_classify(ctx, clock, frames):
-    from flexstack.geonet.mib import GnSecurity
-    for sec in (0, 1):
-        kw = {"itsGnSecurity": GnSecurity.ENABLED} if sec else {}
-        with rs.quiet():
-            stn = st_mod.Station(0x63, clock, with_ldm=False, **kw)
-        spy = Spy(stn.gn)
-        sub = frames if not sec else frames[::5]
-        lines, reals = [], []
+MODEL_BATCH = []      # (stream name, input descriptor, real output, model line): compared in ONE driver call
+
+
+def flush_model(ctx):
+    batch, MODEL_BATCH[:] = list(MODEL_BATCH), []
+    if not ctx.model_ok or not batch:
+        return
+    outs = ctx.model("Recv", [b[3] for b in batch])
+    for (stream, inp, real, _), mo in zip(batch, outs):
+        if real != mo:
+            ctx.mismatch(stream, inp, real, mo)
+
+
+def check_classify(ctx, clock, frames, world, sec_frames, elog):
+    configs = [(0, 0, frames), (1, 0, frames[::5]), (1, 1, frames[::7] + sec_frames), (0, 1, frames[::11] + sec_frames[::3])]
+    for sec, ver, sub in configs:
+        pr = Probe(clock, sec, ver, world)
+        reals = []
         for f in sub:
-            out, exc = real_classify(stn, spy, f)
-            reals.append((f, out))
-            lines.append(f"cls 1 {sec} 0 {f.hex() or '-'}")
+            out, exc, discarded, changed, _ = pr.feed(f)
             ctx.evals()
-            ctx.cover("real_" + out.split("+")[0])
-            ctx.nontrivial(("cls", sec, out, len(f) if len(f) < 64 else 64, f[4:6].hex()))
-            if out.endswith("+EFFECT"):
-                ctx.violation(f"rejected frame changed router state ({out})", {"kind": "classify", "sec": sec, "frame": f.hex()})
-        if not ctx.model_ok:
-            continue
-        for (f, out), mo in zip(reals, ctx.model("Recv", lines)):
-            if out != mo:
-                ctx.mismatch("recv.classify", {"sec": sec, "frame": f.hex()}, out, mo)
-        ctx.sample("classify", {"frame": reals[len(reals) // 2][0].hex(), "outcome": reals[len(reals) // 2][1]})
+            if exc is not None:
+                elog.see(exc, f.hex())
+            ctx.cover("real_" + out.split(":")[0] + (":" + out.split(":")[1] if out.startswith("raised") else ""))
+            ctx.nontrivial(("cls", sec, ver, out, len(f) if len(f) < 64 else 64, f[4:6].hex()))
+            case = {"kind": "effect", "sec": sec, "ver": ver, "frame": f.hex()}
+            if ver:
+                case["trust"] = world.trust()
+            if out == "secured":
+                # (c): a secured frame never changes router state unless it is passed on; unparsable envelope: nothing
+                if discarded and changed:
+                    st_now = pr.state()
+                    if not envelope_parses(f):
+                        ctx.violation("secured frame whose envelope does not parse changed station state", case)
+                    ctx.cover("secured_failed_with_sec_state_change")
+                reals.append((f, out))
+            else:
+                if discarded and changed:
+                    ctx.violation(f"discarded frame ({out}; nothing delivered, nothing sent) changed station state",
+                                  case)
+                reals.append((f, out))
+            MODEL_BATCH.append(("recv.classify", {"sec": sec, "ver": ver, "frame": f.hex()}, out,
+                                f"cls 1 {sec} {ver} {f.hex() or '-'}"))
+        mid = reals[len(reals) // 2]
+        ctx.sample("classify", {"sec": sec, "ver": ver, "frame": mid[0].hex()[:120], "outcome": mid[1]})
 
 
-# ------------------------------------------------------------------------------------------------
-# (iii) loops
+def router_state_of(stn):
+    return loct_snapshot(stn.gn)
+
+
+def check_secured_effect(ctx, clock, world, sec_mut, elog):
+    """(c) on the real stack: a secured frame that is not passed on leaves the location table alone, delivers and sends
+    nothing; the library only grows (roots, own certificates fixed)"""
+    pr = Probe(clock, 1, 1, world)
+    for tag, f in sec_mut:
+        before_loct = loct_snapshot(pr.stn.gn)
+        before_sec = sec_snapshot(pr.stn.rs)
+        out, exc, discarded, changed, delivered = pr.feed(f)
+        ctx.evals()
+        ctx.cover("secmut_" + tag.split(":")[0])
+        if exc is not None:
+            elog.see(exc, f.hex())
+        case = {"kind": "effect", "sec": 1, "ver": 1, "frame": f.hex(), "trust": world.trust()}
+        after_sec = sec_snapshot(pr.stn.rs)
+        if discarded and loct_snapshot(pr.stn.gn) != before_loct:
+            ctx.violation(f"secured frame ({tag}) that was not passed on changed the location table", case)
+        if after_sec[0] != before_sec[0] or after_sec[3] != before_sec[3]:
+            ctx.violation(f"received frame ({tag}) changed root / own certificates", case)
+        if not (set(before_sec[1]) <= set(after_sec[1]) and set(before_sec[2]) <= set(after_sec[2])):
+            ctx.violation(f"received frame ({tag}) removed certificates from the library", case)
+        if not envelope_parses(f) and out == "secured" and changed:
+            ctx.violation(f"secured frame ({tag}) whose envelope does not parse changed station state", case)
+        ctx.nontrivial(("secfx", tag, out, type(exc).__name__ if exc else None, changed))
+
+
+def check_pairs(ctx, clock, base, elog, extra=()):
+    """(iii) [bad, original] vs [original]: every mutant that keeps the GN headers' (source, SN) followed by the frame
+    it was derived from.  If the mutant was DISCARDED the original must be processed as alone (C04-m1 class); if the
+    mutant was indicated (well-formed GN packet) and the chain above raised, the differing outcome is C04-KF1."""
+    n = 0
+    for kind, v in base:
+        hdr_len = 40 if kind in ("cam", "vam") else 56
+        muts = []
+        if kind == "denm":
+            muts += [("zero-area", z) for z in zero_area_frames(v)]
+        for _ in range(ctx.scale(6, 60)):                  # payload-only mutations (GN headers intact)
+            q = bytearray(v)
+            i = ctx.rng.randrange(hdr_len, len(q))
+            q[i] ^= 1 << ctx.rng.randrange(8)
+            muts.append(("payload-flip", bytes(q)))
+        muts.append(("payload-truncated", v[:hdr_len + 6]))
+        muts.append(("payload-garbage", v[:hdr_len + 4] + bytes(ctx.rng.randrange(256) for _ in range(20))))
+        for off in (3, 10):                                 # RHL / MHL
+            q = bytearray(v)
+            q[off] = 0 if off == 10 else 255
+            muts.append(("hop-limit", bytes(q)))
+        muts += [("extra", e) for e in extra]
+        seen_m = set()
+        for tag, b in muts:
+            if b == v or b in seen_m:
+                continue
+            seen_m.add(b)
+            alone = Probe(clock, with_ldm=False)
+            r_alone = alone.feed(v)
+            s_alone = alone.state()
+            both = Probe(clock, with_ldm=False)
+            r_bad = both.feed(b)
+            r_v = both.feed(v)
+            n += 1
+            ctx.evals(2)
+            if r_bad[1] is not None:
+                elog.see(r_bad[1], b.hex())
+            out_b, exc_b, disc_b, changed_b, deliv_b = r_bad
+            same = (r_v[0], type(r_v[1]).__name__, r_v[4]) == (r_alone[0], type(r_alone[1]).__name__, r_alone[4]) \
+                and both.state() == s_alone
+            case = {"kind": "pair", "bad": b.hex(), "good": v.hex()}
+            ctx.cover("pair_" + tag)
+            if disc_b:
+                if changed_b:
+                    ctx.violation(f"discarded frame ({tag}: {out_b}) changed the location table", case)
+                elif not same:
+                    ctx.violation(f"well-formed frame after a discarded frame ({tag}: {out_b}) was not processed as if the "
+                                  f"bad frame had never been received: {r_v[0]} deliveries {len(r_v[4])} vs alone "
+                                  f"{r_alone[0]} deliveries {len(r_alone[4])}", case)
+            elif exc_b is not None and not same and r_v[4] != r_alone[4]:
+                # indicated (well-formed GN packet), the BTP / facility chain raised: C04-KF1 region
+                ctx.violation(f"frame with undecodable payload ({tag}: {type(exc_b).__name__}) consumed (source, SN): the "
+                              f"well-formed frame with the same (source, SN) that follows is dropped as duplicate", case,
+                              "C04-KF1")
+                ctx.cover("kf1_region")
+            ctx.nontrivial(("pair", kind, tag, out_b, disc_b, same))
+    ctx.cover("pairs", n)
+
+
+# ------------------------------------------------------------------------------------------------ (iv) loops
 
 
 class FakeSock:
@@ -271,19 +747,31 @@ def eth(payload, dst=BCAST, src=PEER_MAC):
     return dst + src + ETHERTYPE + payload
 
 
-def run_raw_loop(clock, frames, facilities, with_ldm):
-    """returns (alive, per-frame deliveries, error) for ethernet frames `frames` through the real RawLinkLayer.receive"""
+def make_station(clock, facilities, with_ldm, world=None):
+    if world is not None:
+        return world.receiver(facilities)
     with rs.quiet():
-        stn = st_mod.Station(0x63, clock, facilities=facilities, with_ldm=with_ldm)
+        return st_mod.Station(0x63, clock, facilities=facilities, with_ldm=with_ldm)
+
+
+def run_raw_loop(clock, frames, facilities, with_ldm, world=None, stdout=None, unguarded=False):
+    """returns (alive, per-frame deliveries, error, station) for ethernet frames through the real RawLinkLayer.receive.
+    `unguarded`: the callback is Router.process_basic_header, which RAISES for bad frames (the loop's own guard is
+    exercised: a link layer must survive whatever its receive_callback raises)"""
+    stn = make_station(clock, facilities, with_ldm, world)
     marks = []
     ll = RawLinkLayer.__new__(RawLinkLayer)
-    ll.receive_callback = stn.gn.gn_data_indicate
+    ll.receive_callback = stn.gn.process_basic_header if unguarded else stn.gn.gn_data_indicate
     ll.mac_address = OWN_MAC
     ll.sock = FakeSock(frames, lambda i: marks.append(len(stn.port_hits)))
     err = None
     try:
-        with rs.quiet():
-            ll.receive()
+        if stdout is None:
+            with rs.quiet():
+                ll.receive()
+        else:
+            with stdout:
+                ll.receive()
     except BaseException as e:  # noqa: BLE001  the loop died
         err = f"{type(e).__name__}: {e}"
     per = []
@@ -292,45 +780,98 @@ def run_raw_loop(clock, frames, facilities, with_ldm):
         hi = marks[i + 1] if i + 1 < len(marks) else len(stn.port_hits)
         per.append([(p, bytes(ind.data).hex()) for p, ind in stn.port_hits[lo:hi]])
     alive = err is None and ll.sock.i == len(frames)
-    return alive, per, err
+    return alive, per, err, stn
 
 
-def run_cv2x_loop(clock, payloads):
+def run_cv2x_loop(clock, payloads, stdout=None, unguarded=False):
     with rs.quiet():
         stn = st_mod.Station(0x63, clock, with_ldm=False)
     ll = cv2x_mod.PythonCV2XLinkLayer.__new__(cv2x_mod.PythonCV2XLinkLayer)
     ll.link_layer = None
-    ll.receive_callback = stn.gn.gn_data_indicate
+    marks = []
+
+    def cb(data):
+        marks.append(len(stn.port_hits))
+        return (stn.gn.process_basic_header if unguarded else stn.gn.gn_data_indicate)(data)
+    ll.receive_callback = cb
     q = queue.Queue()
     for p in payloads:
         q.put(p)
     q.put(None)
     err = None
     try:
-        with rs.quiet():
-            ll.callback_handler_loop(q)
+        if stdout is None:
+            with rs.quiet():
+                ll.callback_handler_loop(q)
+        else:
+            with stdout:
+                ll.callback_handler_loop(q)
     except BaseException as e:  # noqa: BLE001
         err = f"{type(e).__name__}: {e}"
-    return err is None and q.empty(), [(p, bytes(i.data).hex()) for p, i in stn.port_hits], err
+    per = []
+    for i in range(len(payloads)):
+        lo = marks[i] if i < len(marks) else len(stn.port_hits)
+        hi = marks[i + 1] if i + 1 < len(marks) else len(stn.port_hits)
+        per.append([(p, bytes(ind.data).hex()) for p, ind in stn.port_hits[lo:hi]])
+    return err is None and q.empty() and len(marks) == len(payloads), per, err, stn
 
 
-def check_loops(ctx, clock, bad_pool):
+def gn_source(frame):
+    """GN address (8 octets) claimed as source by an unsecured frame, by header layout (independent of the router)"""
+    if len(frame) < 12 or frame[0] & 0x0F != 1:
+        return None
+    ht, hst = frame[5] >> 4, frame[5] & 0x0F
+    off = 12 if (ht == 1 or (ht == 5 and hst == 0)) else 16
+    return bytes(frame[off:off + 8]) if len(frame) >= off + 8 else None
+
+
+def classify_pool(ctx, clock, pool, valid_sources):
+    """split the bad pool by what each frame does ALONE on a fresh station: ('none' no state change, 'other' creates /
+    updates entries of addresses outside the valid sources, 'valid-source' touches a valid source's entry -> excluded)"""
+    out = []
+    pr = Probe(clock)
+    for f in pool:
+        before = pr.state()
+        pr.feed(f)
+        after = pr.state()
+        if after == before:
+            out.append((f, "none", ()))
+            continue
+        touched = {e[0] for e in set(after[0]) ^ set(before[0])}
+        if any(t[-12:] in {v[-12:] for v in valid_sources} for t in touched):     # same MID (GNAddress equality)
+            out.append((f, "valid-source", tuple(sorted(touched))))
+        else:
+            out.append((f, "other", tuple(sorted(touched))))
+        pr = Probe(clock)          # fresh station after a state change
+    return out
+
+
+def restrict(loct, addrs_mid):
+    return [e for e in loct if e[0][-12:] in addrs_mid]
+
+
+def check_loops(ctx, clock, bad_pool, elog):
     wirings = [(("ca", "den", "vru"), False), (("ca", "den", "vru"), True), (("ca",), False), (("den",), True), (("vru",), True)]
-    n_streams = ctx.scale(24, 400)
+    n_streams = ctx.scale(20, 400)
+    valid0 = base_frames(clock, n=1, idxs=(5, 7))
+    valid_src = {gn_source(f).hex() for _, f in valid0}
+    valid_mid = {s[-12:] for s in valid_src}
+    pool = classify_pool(ctx, clock, ctx.rng.sample(bad_pool, min(len(bad_pool), ctx.scale(400, 4000))), valid_src)
+    ctx.cover("pool_no_effect", sum(1 for _, k, _ in pool if k == "none"))
+    ctx.cover("pool_other_source", sum(1 for _, k, _ in pool if k == "other"))
+    ctx.cover("pool_valid_source_excluded", sum(1 for _, k, _ in pool if k == "valid-source"))
+    usable = [(f, k, t) for f, k, t in pool if k != "valid-source"]
     for s in range(n_streams):
         facilities, with_ldm = wirings[s % len(wirings)]
-        valid = [f for _, f in base_frames(clock, n=1, idxs=(5, 7))]
+        valid = [f for _, f in valid0]
         ctx.rng.shuffle(valid)
         k = ctx.rng.randrange(1, ctx.scale(12, 40))
-        bads = [ctx.rng.choice(bad_pool) for _ in range(k)]
-        # control: valid frames only
-        ctrl_frames = [eth(v) for v in valid]
-        alive0, per0, err0 = run_raw_loop(clock, ctrl_frames, facilities, with_ldm)
-        # test: bad frames injected at random positions (every position covered over the streams)
+        bads = [ctx.rng.choice(usable) for _ in range(k)]
+        alive0, per0, err0, stn0 = run_raw_loop(clock, [eth(v) for v in valid], facilities, with_ldm)
         seq = [("v", v) for v in valid]
-        for b in bads:
+        for b, _, _ in bads:
             seq.insert(ctx.rng.randrange(len(seq) + 1), ("b", b))
-        alive1, per1, err1 = run_raw_loop(clock, [eth(x) for _, x in seq], facilities, with_ldm)
+        alive1, per1, err1, stn1 = run_raw_loop(clock, [eth(x) for _, x in seq], facilities, with_ldm)
         ctx.evals(len(seq))
         ctx.cover("loop_streams")
         ctx.cover("loop_bad_frames", k)
@@ -344,96 +885,384 @@ def check_loops(ctx, clock, bad_pool):
         got = [d for (t, _), d in zip(seq, per1) if t == "v"]
         if got != per0:
             ctx.violation("deliveries of the valid frames differ from the run without the bad frames", case)
+        l0, l1 = loct_snapshot(stn0.gn), loct_snapshot(stn1.gn)
+        if restrict(l1, valid_mid) != restrict(l0, valid_mid):
+            ctx.violation("location-table entries of the valid sources differ from the run without the bad frames", case)
+        allowed = {t for _, kk, ts in bads for t in ts}
+        extra = {e[0] for e in l1} - {e[0] for e in l0}
+        if not extra <= allowed:
+            ctx.violation("location table holds entries that no injected frame creates on its own", case)
+        if all(kk == "none" for _, kk, _ in bads) and l1 != l0:
+            ctx.violation("location table differs although every injected frame is without effect on its own", case)
         ctx.nontrivial(("loop", s, k, tuple(facilities), with_ldm))
         if s == 0:
             ctx.sample("loop", {"facilities": list(facilities), "ldm": with_ldm, "n_valid": len(valid), "n_bad": k,
                                 "deliveries_per_valid_frame": [len(d) for d in per0]})
-    # MAC filter: own frames and foreign unicast ignored, own unicast and foreign broadcast accepted
-    v = base_frames(clock, n=1, idxs=(5,))[0][1]
-    other = bytes([0x02, 0, 0, 0, 0, 0x77])
-    cases = [(BCAST, PEER_MAC, 1), (BCAST, OWN_MAC, 0), (OWN_MAC, PEER_MAC, 1), (other, PEER_MAC, 0), (OWN_MAC, OWN_MAC, 1),
-             (PEER_MAC, OWN_MAC, 0)]
-    lines = []
-    for dst, src, want in cases:
-        alive, per, err = run_raw_loop(clock, [eth(v, dst, src)], ("ca", "den", "vru"), False)
-        got = 1 if per and per[0] else 0
-        ctx.evals()
-        exp_prop = 0 if (src == OWN_MAC and dst != OWN_MAC) or (dst not in (OWN_MAC, BCAST)) else 1
-        if got != exp_prop:
-            ctx.violation(f"MAC filter: dst={dst.hex()} src={src.hex()} delivered={got}", {"kind": "mac", "dst": dst.hex(), "src": src.hex()})
-        lines.append((f"mac {OWN_MAC.hex()} {dst.hex()} {src.hex()}", str(got)))
-    if ctx.model_ok:
-        for (ln, got), mo in zip(lines, ctx.model("Recv", [l for l, _ in lines])):
-            if got != mo:
-                ctx.mismatch("recv.mac", ln, got, mo)
-    # C-V2X callback loop
+    # C-V2X callback loop: per-frame comparison
     for s in range(ctx.scale(6, 60)):
-        valid = [f for _, f in base_frames(clock, n=1, idxs=(5, 7))]
+        valid = [f for _, f in valid0]
         seq = [("v", x) for x in valid]
         for _ in range(ctx.rng.randrange(1, 10)):
-            seq.insert(ctx.rng.randrange(len(seq) + 1), ("b", ctx.rng.choice(bad_pool) or b"\x00"))
-        alive0, d0, e0 = run_cv2x_loop(clock, valid)
-        alive1, d1, e1 = run_cv2x_loop(clock, [x for _, x in seq if x])
+            seq.insert(ctx.rng.randrange(len(seq) + 1), ("b", ctx.rng.choice(usable)[0] or b"\x00"))
+        alive0, d0, e0, stn0 = run_cv2x_loop(clock, valid)
+        alive1, d1, e1, stn1 = run_cv2x_loop(clock, [x for _, x in seq])
         ctx.evals(len(seq))
         ctx.cover("cv2x_streams")
-        case = {"kind": "cv2x", "stream": [[t, x.hex()] for t, x in seq if x]}
+        case = {"kind": "cv2x", "stream": [[t, x.hex()] for t, x in seq]}
         if not alive1:
             ctx.violation(f"C-V2X callback loop terminated by a received frame: {e1}", case)
-        else:
-            bad_deliv = set()
-            if [d for d in d1 if d in d0] != d0:
-                ctx.violation("C-V2X: deliveries of the valid frames differ from the control run", case)
+            continue
+        got = [d for (t, _), d in zip(seq, d1) if t == "v"]
+        if got != d0:
+            ctx.violation("C-V2X: per-frame deliveries of the valid frames differ from the control run", case)
+        if restrict(loct_snapshot(stn1.gn), valid_mid) != restrict(loct_snapshot(stn0.gn), valid_mid):
+            ctx.violation("C-V2X: location-table entries of the valid sources differ from the control run", case)
 
 
-def check_no_raise(ctx, clock, frames):
+def split_secured_pool(ctx, clock, world, sec_mut):
+    """what each secured mutant does ALONE on a fresh security-enabled receiver: 'bad' = not passed on (discarded),
+    'authentic' = passed the gate (a bit flip in the unsigned basic header, hashId, a re-signed payload ...): that is a
+    well-formed packet of a valid source - subject of the pair check / C04-KF1, not injected into the streams"""
+    bad, authentic = [], []
+    pr = Probe(clock, 1, 1, world)
+    for tag, f in sec_mut:
+        before = pr.state()
+        out, exc, discarded, changed, _ = pr.feed(f)
+        (bad if discarded else authentic).append((tag, f))
+        if pr.state()[0] != before[0]:
+            pr = Probe(clock, 1, 1, world)
+    ctx.cover("secured_pool_bad", len(bad))
+    ctx.cover("secured_pool_authentic_excluded", len(authentic))
+    return bad, authentic
+
+
+def check_secured_pairs(ctx, clock, world, sec_valid, authentic, elog):
+    """security enabled: [authentic packet whose payload does not decode / replayed copy, original] vs [original]"""
+    by_len = {}
+    for kind, v in sec_valid:
+        by_len.setdefault(kind, v)
+    denm = by_len.get("denm")
+    for tag, b in authentic:
+        if denm is None or b == denm:
+            continue
+        alone = Probe(clock, 1, 1, world)
+        r_alone = alone.feed(denm)
+        both = Probe(clock, 1, 1, world)
+        r_b = both.feed(b)
+        r_v = both.feed(denm)
+        ctx.evals(2)
+        if r_b[1] is not None:
+            elog.see(r_b[1], b.hex())
+        case = {"kind": "secpair", "bad": b.hex(), "good": denm.hex(), "trust": world.trust()}
+        ctx.cover("secured_pair_" + tag.split(":")[-1])
+        if r_b[2]:
+            if r_b[3] and both.state()[0] != alone.state()[0]:
+                ctx.violation(f"security enabled: discarded frame ({tag}) changed the location table", case)
+        elif r_b[1] is not None and r_v[4] != r_alone[4]:
+            ctx.violation(f"security enabled: authentic frame with undecodable payload ({tag}: {type(r_b[1]).__name__}) consumed "
+                          f"(source, SN); the well-formed frame that follows is dropped as duplicate", case, "C04-KF1")
+            ctx.cover("kf1_region_secured")
+        ctx.nontrivial(("secpair", tag, r_b[0], r_b[2], r_v[4] == r_alone[4]))
+
+
+def check_secured_loops(ctx, clock, world, sec_mut, unsec_bad, elog):
+    """(iv) with SECURITY ENABLED: valid secured CAM/VAM/DENM of two senders, bad = secured mutants + unsecured frames"""
+    wirings = [("ca", "den", "vru"), ("ca",), ("den", "vru")]
+    for s in range(ctx.scale(5, 60)):
+        fac = wirings[s % len(wirings)]
+        valid = [f for _, f in world.valid_stream()]
+        k = ctx.rng.randrange(2, ctx.scale(10, 30))
+        bads = []
+        for _ in range(k):
+            if ctx.rng.random() < 0.75:
+                bads.append(ctx.rng.choice(sec_mut))
+            else:
+                bads.append(("unsecured", ctx.rng.choice(unsec_bad)))
+        seq = [("v", "valid", v) for v in valid]
+        for tag, b in bads:
+            seq.insert(ctx.rng.randrange(len(seq) + 1), ("b", tag, b))
+        alive0, per0, err0, stn0 = run_raw_loop(clock, [eth(v) for v in valid], fac, False, world)
+        alive1, per1, err1, stn1 = run_raw_loop(clock, [eth(x) for _, _, x in seq], fac, False, world)
+        ctx.evals(len(seq))
+        ctx.cover("secured_loop_streams")
+        ctx.cover("secured_loop_bad_frames", k)
+        case = {"kind": "secloop", "facilities": list(fac), "stream": [[t, x.hex()] for t, _, x in seq],
+                "trust": world.trust()}
+        if not alive0:
+            ctx.violation(f"receive loop died on valid secured traffic: {err0}", dict(case, stream=[["v", v.hex()] for v in valid]))
+            continue
+        if sum(len(d) for d in per0) == 0:
+            raise Infra("secured control run delivered nothing: the secured valid stream is not accepted")
+        if not alive1:
+            ctx.violation(f"receive loop terminated by a received frame (security enabled): {err1}", case)
+            continue
+        got = [d for (t, _, _), d in zip(seq, per1) if t == "v"]
+        if got != per0:
+            ctx.violation("security enabled: deliveries of the valid frames differ from the run without the bad frames", case)
+        if loct_snapshot(stn1.gn) != loct_snapshot(stn0.gn):
+            ctx.violation("security enabled: location table differs from the run without the bad frames "
+                          "(no injected frame is authentic)", case)
+        s0, s1 = sec_snapshot(stn0.rs), sec_snapshot(stn1.rs)
+        if s1[0] != s0[0] or s1[3] != s0[3]:
+            ctx.violation("security enabled: root / own certificates differ from the control run", case)
+        if not (set(s0[1]) <= set(s1[1]) and set(s0[2]) <= set(s1[2])):
+            ctx.violation("security enabled: certificates of the control run missing from the library", case)
+        if all((t == "v") or (not envelope_parses(x) or x[0] & 0x0F != 2) for t, _, x in seq) and s1 != s0:
+            ctx.violation("security enabled: trust store / P2PCD lists differ although every injected frame is unsecured "
+                          "or has an envelope that does not parse", case)
+        ctx.nontrivial(("secloop", s, k, fac))
+        if s == 0:
+            ctx.sample("secloop", {"facilities": list(fac), "n_valid": len(valid), "n_bad": k,
+                                   "deliveries_per_valid_frame": [len(d) for d in per0],
+                                   "bad_tags": sorted({tag for t, tag, _ in seq if t == "b"})})
+
+
+# ------------------------------------------------------------------------------------------------ (v) fault injection
+
+
+class BrokenStream(io.TextIOBase):
+    def __init__(self, exc):
+        self.exc = exc
+        self.writes = 0
+
+    def write(self, s):
+        self.writes += 1
+        raise self.exc
+
+    def flush(self):
+        raise self.exc
+
+
+class broken_std:
+    """stdout (and optionally stderr) replaced by streams that raise; logging left ENABLED (no rs.quiet())"""
+
+    def __init__(self, exc, stderr_too):
+        self.exc, self.stderr_too = exc, stderr_too
+
+    def __enter__(self):
+        # logging.lastResort writes to sys.stderr as it is at emit time
+        self.old = (sys.stdout, sys.stderr)
+        sys.stdout = BrokenStream(self.exc)
+        sys.stderr = BrokenStream(self.exc) if self.stderr_too else io.StringIO()
+        return self
+
+    def __exit__(self, *a):
+        sys.stdout, sys.stderr = self.old
+
+
+FAULTS = [("BrokenPipeError", lambda: BrokenPipeError(32, "Broken pipe"), True),
+          ("OSError", lambda: OSError(5, "Input/output error"), True),
+          ("ValueError", lambda: ValueError("I/O operation on closed file"), False)]
+
+
+def stdout_fault_case(clock, which, fault, bad_hex):
+    """True iff the property is violated: a bad frame received while stdout is broken stops the loop / raises into it"""
+    name, mk, err_too = next(f for f in FAULTS if f[0] == fault)
     with rs.quiet():
-        stn = st_mod.Station(0x63, clock, with_ldm=True)
+        good = st_mod.emit_cam(st_mod.Station(5, clock, with_ldm=False), clock)[0]
+    bad = bytes.fromhex(bad_hex)
+    if which == "raw":
+        alive, per, err, stn = run_raw_loop(clock, [eth(good), eth(bad), eth(good)], ("ca",), False,
+                                            stdout=broken_std(mk(), err_too))
+        return (not alive) or len(per[2]) != 1, f"alive={alive} err={err} deliveries={[len(p) for p in per]}"
+    if which == "cv2x":
+        alive, per, err, stn = run_cv2x_loop(clock, [good, bad, good], stdout=broken_std(mk(), err_too))
+        return (not alive) or len(per[2]) != 1, f"alive={alive} err={err} deliveries={[len(p) for p in per]}"
+    if which == "indicate":
+        with rs.quiet():
+            stn = st_mod.Station(0x63, clock, with_ldm=False)
+        try:
+            with broken_std(mk(), err_too):
+                stn.gn.gn_data_indicate(bad)
+            return False, "returned"
+        except BaseException as e:  # noqa: BLE001
+            return True, f"gn_data_indicate raised {type(e).__name__}: {e}"
+    raise Infra(which)
+
+
+def check_stdout_faults(ctx, clock):
+    bads = ["110005", "11000501" + "20f0000000000100", "1100050a" + "2050000000000100" + "00" * 10]
+    for which in ("raw", "cv2x", "indicate"):
+        for name, _, _ in FAULTS:
+            for bad in bads:
+                viol, what = stdout_fault_case(clock, which, name, bad)
+                ctx.evals()
+                ctx.cover("stdout_fault_" + which)
+                ctx.nontrivial(("fault", which, name, bad))
+                if viol:
+                    ctx.violation(f"bad frame received while stdout raises {name} stopped the receive path ({which}): {what}",
+                                  {"kind": "stdout-fault", "which": which, "fault": name, "frame": bad})
+
+
+GUARD_BADS = ["110005", "1300050120500080002d0100", "1100050320500080002d0100", "11000501" + "20f0000000000100",
+              "11000501" + "2040000000000100" + "00" * 44, "1200050109"]
+
+
+def loop_guard_case(clock, which, bad_hex):
+    """True iff violated: a frame on which the receive callback RAISES ends the loop / later valid frames are lost"""
+    with rs.quiet():
+        good = st_mod.emit_cam(st_mod.Station(5, clock, with_ldm=False), clock)[0]
+    bad = bytes.fromhex(bad_hex)
+    if which == "raw":
+        alive, per, err, _ = run_raw_loop(clock, [eth(good), eth(bad), eth(good)], ("ca",), False, unguarded=True)
+    else:
+        alive, per, err, _ = run_cv2x_loop(clock, [good, bad, good], unguarded=True)
+    return (not alive) or len(per[2]) != 1, f"alive={alive} err={err} deliveries={[len(p) for p in per]}"
+
+
+def check_loop_guard(ctx, clock):
+    """the link-layer loops on their own (callback without the router's catch-all): every exception class of the
+    prologue raised by the callback"""
+    for which in ("raw", "cv2x"):
+        for bad in GUARD_BADS:
+            viol, what = loop_guard_case(clock, which, bad)
+            ctx.evals()
+            ctx.cover("loop_guard_" + which)
+            ctx.nontrivial(("guard", which, bad))
+            if viol:
+                ctx.violation(f"{which} receive loop ended by an exception of its receive callback: {what}",
+                              {"kind": "loop-guard", "which": which, "frame": bad})
+
+
+# ------------------------------------------------------------------------------------------------ (vi) MAC filter
+
+
+def check_mac(ctx, clock):
+    v = base_frames(clock, n=1, idxs=(5,))[0][1]
+    other = bytes([0x02, 0, 0, 0, 0, 0x77])
+    for dst, src in ((BCAST, PEER_MAC), (BCAST, OWN_MAC), (OWN_MAC, PEER_MAC), (other, PEER_MAC), (OWN_MAC, OWN_MAC),
+                     (PEER_MAC, OWN_MAC), (other, OWN_MAC), (PEER_MAC, PEER_MAC), (bytes(6), PEER_MAC)):
+        alive, per, err, _ = run_raw_loop(clock, [eth(v, dst, src)], ("ca", "den", "vru"), False)
+        got = 1 if per and per[0] else 0
+        ctx.evals()
+        # property text: frames sent by the station itself or addressed to another unicast address are ignored
+        exp_prop = 0 if (src == OWN_MAC) or (dst not in (OWN_MAC, BCAST)) else 1
+        ctx.nontrivial(("mac", dst.hex(), src.hex()))
+        if got != exp_prop:
+            ctx.violation(f"MAC filter: dst={dst.hex()} src={src.hex()} delivered={got}",
+                          {"kind": "mac", "dst": dst.hex(), "src": src.hex()})
+        MODEL_BATCH.append(("recv.mac", {"dst": dst.hex(), "src": src.hex()}, str(got),
+                            f"mac {OWN_MAC.hex()} {dst.hex()} {src.hex()}"))
+
+
+def check_no_raise(ctx, clock, frames, world=None):
+    stn = world.receiver() if world is not None else make_station(clock, ("ca", "den", "vru"), True)
     for f in frames:
         ctx.evals()
         try:
             with rs.quiet():
                 stn.gn.gn_data_indicate(f)
         except Exception as e:  # noqa: BLE001
-            ctx.violation(f"gn_data_indicate raised {type(e).__name__} into the link layer", {"kind": "indicate", "frame": f.hex()})
-    ctx.cover("gn_data_indicate_frames", len(frames))
+            case = {"kind": "indicate", "frame": f.hex(), "sec": 1 if world is not None else 0}
+            if world is not None:
+                case["trust"] = world.trust()
+            ctx.violation(f"gn_data_indicate raised {type(e).__name__} into the link layer", case)
+    ctx.cover("gn_data_indicate_frames" + ("_secured" if world is not None else ""), len(frames))
 
 
-def all_bad_frames(ctx, clock):
-    base = base_frames(clock, n=1)
-    frames = grammar_frames(ctx, base) + mutant_frames(ctx, base) + random_frames(ctx)
-    seen, out = set(), []
-    for f in frames:
-        if f not in seen:
-            seen.add(f)
-            out.append(f)
-    return out
+# ------------------------------------------------------------------------------------------------ entry points
+
+
+def check_generated_facts(ctx):
+    """the facts of Generated/Except.lean as the harness sees them (evidence; the obligations are in Props/C04)"""
+    shapes = {
+        "raw": gen_except.loop_shape("linklayer/raw_link_layer.py", "RawLinkLayer", "receive", "receive_callback"),
+        "cv2x": gen_except.loop_shape("linklayer/cv2x_link_layer.py", "PythonCV2XLinkLayer", "callback_handler_loop",
+                                      "receive_callback"),
+        "gn_data_indicate": gen_except.loop_shape("geonet/router.py", "Router", "gn_data_indicate", "process_basic_header"),
+    }
+    _, t = gen_except.table_names()
+    ctx.extra["try_shapes"] = shapes
+    ctx.extra["raise_table"] = {"classes": len(t["table"]), "flexstack_modules": t["n_flex_modules"],
+                                "third_party_modules": t["n_third_modules"], "unresolved_raise_sites": len(t["unresolved"]),
+                                "flex_base_only_sites": t["flex_base_sites"], "third_party_base_only_sites": t["third_base_sites"]}
+    return shapes
+
+
+def timed(ctx, name, fn, *a, **k):
+    import time
+    t = time.time()
+    r = fn(*a, **k)
+    ctx.extra.setdefault("section_seconds", {})[name] = round(ctx.extra.get("section_seconds", {}).get(name, 0) + time.time() - t, 1)
+    return r
 
 
 def run(ctx):
     ctx.extra["rule"] = ("frames: grammar-based on the GN header layout (every HT/HST/NH/version, truncation at every "
                          "extended-header boundary, RHL/MHL pairs, station-type octets, zero-sized areas), truncations/bit "
-                         "flips/byte substitutions/extensions of CAM, VAM and DENM frames captured from real stations, random "
-                         "bytes up to the MTU; each classified by the real router and the Lean model; streams of valid traffic "
-                         "with bad frames at random positions through the real RawLinkLayer.receive and C-V2X loop for 5 "
-                         "facility wirings. distinct_nontrivial = distinct (security, outcome, length bucket, HT/HST octets) "
-                         "classes plus distinct streams")
-    with rs.VClock(1_700_000_000_000) as clock:
+                         "flips/byte substitutions/extensions of CAM, VAM and DENM frames captured from real stations "
+                         "(unsecured AND secured with a real PKI), field-level forgeries of the secured envelope, random bytes "
+                         "up to the MTU; each classified by the real router (4 security configurations) and the Lean model; "
+                         "pair runs [mutant, original]; streams of valid traffic with bad frames at random positions through "
+                         "the real RawLinkLayer.receive / C-V2X loop (5 facility wirings unsecured, 3 with security enabled); "
+                         "stdout fault injection. distinct_nontrivial = distinct (configuration, outcome, length bucket, "
+                         "HT/HST) classes, distinct secured-mutant effects, pairs, streams and fault cases")
+    check_generated_facts(ctx)
+    elog = ExcLog(ctx)
+    with rs.VClock(T0) as clock:
         corp = [bytes.fromhex(c["frame"]) for _, c in corpus("C04") if "frame" in c]
-        frames = corp + all_bad_frames(ctx, clock)
+        import contextlib
+        for name, c in corpus("C04"):
+            if c.get("kind") in ("pair", "stdout-fault", "mac"):
+                with contextlib.redirect_stdout(io.StringIO()):
+                    bad = replay(ctx, {"case": c})
+                ctx.evals()
+                if c.get("known"):
+                    # run-time variant detection of a known finding: does the code still show the witness?
+                    ctx.extra.setdefault("known_finding_variant", {})[c["known"]] = "as-is" if bad else "repaired"
+                if bad:
+                    ctx.violation(f"corpus case {name} reproduces: {c.get('note', '')[:160]}", c, c.get("known"))
+        frames = corp + timed(ctx, "generate_frames", all_bad_frames, ctx, clock)
         ctx.cover("corpus_cases", len(corp))
-        check_classify(ctx, clock, frames)
-        check_no_raise(ctx, clock, frames if ctx.thorough else frames[::3] + corp)
-        check_loops(ctx, clock, frames)
+        world = timed(ctx, "pki", SecWorld, clock)
+        sec_valid = world.valid_stream()
+        sec_mut = timed(ctx, "secured_mutants", secured_mutants, ctx, world, sec_valid)
+        sec_frames = dedup([f for _, f in sec_valid] + [f for _, f in sec_mut])
+        timed(ctx, "stdout_faults", check_stdout_faults, ctx, clock)
+        timed(ctx, "loop_guard", check_loop_guard, ctx, clock)
+        timed(ctx, "mac", check_mac, ctx, clock)
+        timed(ctx, "classify", check_classify, ctx, clock, frames, world, sec_frames, elog)
+        timed(ctx, "model_driver", flush_model, ctx)
+        timed(ctx, "secured_effect", check_secured_effect, ctx, clock, world, sec_mut, elog)
+        base57 = base_frames(clock, n=1, idxs=(5, 7))
+        timed(ctx, "pairs", check_pairs, ctx, clock,
+              base57 if ctx.thorough else [b for b in base57 if b[0] in ("denm", "cam")][:3], elog)
+        timed(ctx, "no_raise", check_no_raise, ctx, clock, frames if ctx.thorough else frames[::3] + corp)
+        timed(ctx, "no_raise_secured", check_no_raise, ctx, clock, sec_frames if ctx.thorough else sec_frames[::2], world)
+        timed(ctx, "loops", check_loops, ctx, clock, frames, elog)
+        sec_bad, sec_auth = timed(ctx, "secured_pool", split_secured_pool, ctx, clock, world, sec_mut)
+        timed(ctx, "secured_pairs", check_secured_pairs, ctx, clock, world, sec_valid, sec_auth, elog)
+        timed(ctx, "secured_loops", check_secured_loops, ctx, clock, world, sec_bad, frames, elog)
+    ctx.extra["exception_classes_observed"] = sorted(elog.seen.values())
 
 
 def search(ctx):
-    with rs.VClock(1_700_000_000_000) as clock:
+    """an obligation / the correspondence broke: look for a concrete failing input on the real code (oracle only)"""
+    with rs.VClock(T0) as clock:
         ok = ctx.model_ok
         ctx.model_ok = False
         try:
+            elog = ExcLog(ctx)
+            check_stdout_faults(ctx, clock)
+            check_loop_guard(ctx, clock)
+            if ctx.violations:
+                return
+            # multi-step histories first: every mutant that keeps (source, SN) followed by its original, all kinds
+            base = base_frames(clock, n=1, idxs=(5, 7))
+            check_pairs(ctx, clock, base, elog)
+            if ctx.violations:
+                return
             frames = all_bad_frames(ctx, clock) + random_frames(ctx) + random_frames(ctx)
+            world = SecWorld(clock)
+            sec_valid = world.valid_stream()
+            sec_mut = secured_mutants(ctx, world, sec_valid)
             check_no_raise(ctx, clock, frames)
-            check_loops(ctx, clock, frames)
+            check_no_raise(ctx, clock, [f for _, f in sec_mut], world)
+            check_classify(ctx, clock, frames, world, dedup([f for _, f in sec_mut]), elog)
+            check_loops(ctx, clock, frames, elog)
+            sec_bad, sec_auth = split_secured_pool(ctx, clock, world, sec_mut)
+            check_secured_pairs(ctx, clock, world, sec_valid, sec_auth, elog)
+            check_secured_loops(ctx, clock, world, sec_bad, frames, elog)
         finally:
             ctx.model_ok = ok
 
@@ -441,12 +1270,12 @@ def search(ctx):
 def replay(ctx, obj):
     case = obj.get("case", obj)
     kind = case["kind"]
-    with rs.VClock(1_700_000_000_000) as clock:
-        if kind in ("classify", "indicate"):
+    with rs.VClock(T0) as clock:
+        if kind in ("classify", "indicate", "effect"):
             f = bytes.fromhex(case["frame"])
-            with rs.quiet():
-                stn = st_mod.Station(0x63, clock, with_ldm=True)
+            world = replay_world(case, clock) if (case.get("ver") or (kind == "indicate" and case.get("sec"))) else None
             if kind == "indicate":
+                stn = world.receiver() if world else make_station(clock, ("ca", "den", "vru"), True)
                 try:
                     with rs.quiet():
                         stn.gn.gn_data_indicate(f)
@@ -454,27 +1283,81 @@ def replay(ctx, obj):
                 except Exception as e:  # noqa: BLE001
                     print("raised", type(e).__name__, e)
                     return True
-            out, _ = real_classify(stn, Spy(stn.gn), f)
-            print(out)
-            return out.endswith("+EFFECT")
+            pr = Probe(clock, case.get("sec", 0), case.get("ver", 0), world)
+            out, exc, discarded, changed, _ = pr.feed(f)
+            print(out, "discarded" if discarded else "indicated/sent", "state changed" if changed else "state unchanged")
+            if exc is not None and not isinstance(exc, Exception):
+                return True
+            if out == "secured":
+                return discarded and changed and not envelope_parses(f)
+            return discarded and changed
+        if kind == "pair":
+            b, v = bytes.fromhex(case["bad"]), bytes.fromhex(case["good"])
+            alone = Probe(clock)
+            r_alone = alone.feed(v)
+            both = Probe(clock)
+            r_b = both.feed(b)
+            r_v = both.feed(v)
+            same = (r_v[0], type(r_v[1]).__name__, r_v[4]) == (r_alone[0], type(r_alone[1]).__name__, r_alone[4]) \
+                and both.state() == alone.state()
+            print("bad:", r_b[0], "discarded" if r_b[2] else "indicated", "| good after bad:", r_v[0], len(r_v[4]),
+                  "deliveries | good alone:", r_alone[0], len(r_alone[4]), "deliveries | same:", same)
+            if r_b[2]:
+                return r_b[3] or not same
+            return r_b[1] is not None and r_v[4] != r_alone[4]
+        if kind == "secpair":
+            world = replay_world(case, clock)
+            b, v = bytes.fromhex(case["bad"]), bytes.fromhex(case["good"])
+            alone = Probe(clock, 1, 1, world)
+            r_alone = alone.feed(v)
+            both = Probe(clock, 1, 1, world)
+            r_b = both.feed(b)
+            r_v = both.feed(v)
+            print("bad:", r_b[0], "discarded" if r_b[2] else "passed on", "| good after bad:", len(r_v[4]),
+                  "deliveries | good alone:", len(r_alone[4]))
+            if r_b[2]:
+                return r_b[3] and both.state()[0] != alone.state()[0]
+            return r_b[1] is not None and r_v[4] != r_alone[4]
         if kind == "loop":
             seq = [(t, bytes.fromhex(x)) for t, x in case["stream"]]
             fac, ldm = tuple(case["facilities"]), case["ldm"]
-            alive0, per0, _ = run_raw_loop(clock, [eth(x) for t, x in seq if t == "v"], fac, ldm)
-            alive1, per1, err1 = run_raw_loop(clock, [eth(x) for _, x in seq], fac, ldm)
+            alive0, per0, _, stn0 = run_raw_loop(clock, [eth(x) for t, x in seq if t == "v"], fac, ldm)
+            alive1, per1, err1, stn1 = run_raw_loop(clock, [eth(x) for _, x in seq], fac, ldm)
+            got = [d for (t, _), d in zip(seq, per1) if t == "v"]
+            valid_mid = {gn_source(x).hex()[-12:] for t, x in seq if t == "v" and gn_source(x)}
+            same_loct = restrict(loct_snapshot(stn1.gn), valid_mid) == restrict(loct_snapshot(stn0.gn), valid_mid)
+            print("alive", alive1, err1, "same deliveries", got == per0, "same LocT of valid sources", same_loct)
+            return (not alive1) or got != per0 or not same_loct
+        if kind == "secloop":
+            world = replay_world(case, clock)
+            seq = [(t, bytes.fromhex(x)) for t, x in case["stream"]]
+            fac = tuple(case["facilities"])
+            alive0, per0, _, stn0 = run_raw_loop(clock, [eth(x) for t, x in seq if t == "v"], fac, False, world)
+            alive1, per1, err1, stn1 = run_raw_loop(clock, [eth(x) for _, x in seq], fac, False, world)
             got = [d for (t, _), d in zip(seq, per1) if t == "v"]
             print("alive", alive1, err1, "same deliveries", got == per0)
             return (not alive1) or got != per0
         if kind == "cv2x":
             seq = [(t, bytes.fromhex(x)) for t, x in case["stream"]]
-            alive1, d1, e1 = run_cv2x_loop(clock, [x for _, x in seq])
-            print("alive", alive1, e1)
-            return not alive1
+            alive0, d0, _, _ = run_cv2x_loop(clock, [x for t, x in seq if t == "v"])
+            alive1, d1, e1, _ = run_cv2x_loop(clock, [x for _, x in seq])
+            got = [d for (t, _), d in zip(seq, d1) if t == "v"]
+            print("alive", alive1, e1, "same deliveries", got == d0)
+            return (not alive1) or got != d0
+        if kind == "loop-guard":
+            viol, what = loop_guard_case(clock, case["which"], case["frame"])
+            print(what)
+            return viol
+        if kind == "stdout-fault":
+            viol, what = stdout_fault_case(clock, case["which"], case["fault"], case["frame"])
+            print(what)
+            return viol
         if kind == "mac":
             v = base_frames(clock, n=1, idxs=(5,))[0][1]
             dst, src = bytes.fromhex(case["dst"]), bytes.fromhex(case["src"])
-            alive, per, err = run_raw_loop(clock, [eth(v, dst, src)], ("ca", "den", "vru"), False)
+            alive, per, err, _ = run_raw_loop(clock, [eth(v, dst, src)], ("ca", "den", "vru"), False)
             got = 1 if per and per[0] else 0
-            exp = 0 if (src == OWN_MAC and dst != OWN_MAC) or (dst not in (OWN_MAC, BCAST)) else 1
+            exp = 0 if (src == OWN_MAC) or (dst not in (OWN_MAC, BCAST)) else 1
+            print("delivered", got, "expected", exp)
             return got != exp
     raise Infra(f"unknown replay kind {kind}")
